@@ -3,7 +3,7 @@ import itertools
 import re
 
 from .. import xp
-from ..core import Case, guard, rt_run, log
+from ..core import shash, Case, guard, rt_run, log
 
 TOK = re.compile(r'''\s*(?:
     (?P<str>b?"(?:[^"\\]|\\.)*") | (?P<chr>b?'(?:[^'\\]|\\.)') | (?P<life>'[A-Za-z_][A-Za-z0-9_]*) |
@@ -193,10 +193,10 @@ def double_mutations(tier):
         tt = tokenize(args)
         small = ['x', 'unsafe', 'false', '-1', '""', '=', ',', ['(', [], ')'], '*']
         for d1, m1 in mutations(tt, small):
-            if d1.startswith(('ins', 'rep')) and hash(d1) % 3:
+            if d1.startswith(('ins', 'rep')) and shash(d1) % 3:
                 continue
             for d2, m2 in mutations(m1, small[:6]):
-                if d2.startswith(('ins', 'rep')) and hash(d2 + d1) % 5:
+                if d2.startswith(('ins', 'rep')) and shash(d2 + d1) % 5:
                     continue
                 a = render(m2)
                 text = tpl.replace('{{', '\x00').replace('}}', '\x01').replace('{A}', a).replace('\x00', '{').replace('\x01', '}')
